@@ -14,3 +14,17 @@ package sql
 //@   requires ty != nil && (forall i int :: 0 <= i && i < len(ty.Fields) ==> ty.Fields[i].Field != nil)
 //@   modifies *
 //@   loop ty.Fields.1 endassert !f.Exported() ==> keys == athead(keys) && checks == athead(checks) && out == athead(out)
+
+// ---------------------------------------------------------------- C16 (kernel)
+
+// the name following REFERENCES is replaced by the SQL table name
+//@ func generateCustomConstraint$lit1
+//@   props C16
+//@   ensures result == strings.Cut(s, " ") + " " + gen.SQLTableName(second(strings.Cut(s, " ")))
+
+// a constraint starting with ADD is attached to the table of the struct whose declaration carries the comment
+//@ func generateCustomConstraint
+//@   props C16
+//@   requires ta.Name != nil
+//@   modifies *
+//@   callarg fmt.Sprintf@1 1 gen.SQLTableName(ta.TableName())
